@@ -34,7 +34,7 @@ RULE = ("(A) aliasing scenario = (constructor, cache state from 0-3 reads, deriv
         "mutating history of length 1-5 over {transform L/R/P incl. Sim(3), scale, reduce, project, align, motion filter, "
         "align_origin, reads}); compared with the heap model: sharing per derived object, source changed or not, per-operation "
         "allocation behaviour; (B) every public function / method of evo.core.{metrics,sync,filters,geometry,result,trajectory,"
-        "lie_algebra} and evo.tools.{file_interface,pandas_bridge} found by introspection, called on synthesised arguments "
+        "lie_algebra} and evo.tools.{file_interface,pandas_bridge,plot} found by introspection, called on synthesised arguments incl. non-default options "
         "(several argument variants each), deep snapshots of all arguments compared bit for bit; functions whose arguments "
         "could not be synthesised are listed in notes.uncovered; non-trivial = B was really mutated / the call returned normally")
 
@@ -321,7 +321,14 @@ def judge_scenario(ctx, case, impl, out):
     if m_after != impl["share_after"]:
         ctx.mismatch(case, f"{d}: derived object shares memory with the source after the history: evo {impl['share_after']}, model {m_after}")
         return
-    if m_A != impl["A_changed"] or m_A2 != impl["A2_changed"]:
+    if d == "self":
+        # control (the "derived" object is the source itself): evo compares bit patterns, so a quaternion -> matrix ->
+        # quaternion round trip counts as a change although the exact model shows the same rotation; only the other
+        # direction is a disagreement
+        if m_A and not impl["A_changed"]:
+            ctx.mismatch(case, "control: the heap model says the object changed, evo shows identical data")
+            return
+    elif m_A != impl["A_changed"] or m_A2 != impl["A2_changed"]:
         ctx.mismatch(case, f"{d}: source changed: evo {impl['A_changed']}/{impl['A2_changed']}, heap model {m_A}/{m_A2}")
         return
     # allocation behaviour, per evo call (a call may span several model steps: combine them)
@@ -352,7 +359,11 @@ def judge_scenario(ctx, case, impl, out):
 
 # ----------------------------------------------------------------------------- part B: frame condition by introspection
 MODULES = ["evo.core.metrics", "evo.core.sync", "evo.core.filters", "evo.core.geometry", "evo.core.result",
-           "evo.core.trajectory", "evo.core.lie_algebra", "evo.tools.file_interface", "evo.tools.pandas_bridge"]
+           "evo.core.trajectory", "evo.core.lie_algebra", "evo.tools.file_interface", "evo.tools.pandas_bridge",
+           "evo.tools.plot"]
+# GUI entry points (open windows / need a display): not callable in a batch run
+EXCLUDED = {"evo.tools.plot.PlotCollection.show": "opens a GUI window", "evo.tools.plot.PlotCollection.tabbed_qt5_window": "needs Qt",
+            "evo.tools.plot.PlotCollection.tabbed_tk_window": "needs Tk / a display"}
 # methods whose receiver is "the object explicitly being operated on"
 MUTATORS = {"transform", "scale", "project", "align", "align_origin", "reduce_to_ids", "downsample", "motion_filter",
             "reduce_to_time_range", "process_data", "change_unit", "add_info", "add_np_array", "add_stats", "add_trajectory",
@@ -555,6 +566,51 @@ class Factory:
             return pandas_bridge.trajectory_to_df(self.traj(True))
         if name == "confirm_overwrite":
             return False
+        if fname.startswith("evo.tools.plot."):
+            import matplotlib.pyplot as plt
+            from evo.tools import plot
+            if name == "plot_mode":
+                return r.choice(list(plot.PlotMode))
+            if name == "ax":
+                return plt.figure().add_subplot(111)     # replaced by prepare_axis(fig, plot_mode) when a mode is given
+            if name == "axarr":
+                return plt.subplots(3)[1]
+            if name in ("fig_or_ax", "fig"):
+                return plt.figure()
+            if name == "start_timestamp":
+                return r.choice([None, 0.5, 100.0, 1.5e9])
+            if name == "err_array":
+                return np.array([r.uniform(0, 2) for _ in range(9)])
+            if name == "x_array":
+                return r.choice([None, np.linspace(10.0, 11.0, 9)])
+            if name == "statistics":
+                return r.choice([None, {"rmse": 1.0, "mean": 0.8, "std": 0.2}])
+            if name == "threshold":
+                return r.choice([None, 1.0])
+            if name == "marker":
+                return r.choice([None, "o"])
+            if name == "colors":
+                return [(0.1, 0.2, 0.3, 1.0)] * 4
+            if name == "length_unit":
+                from evo.core import units
+                return r.choice([units.Unit.meters, units.Unit.kilometers])
+            if name in ("min_map",):
+                return 0.0
+            if name in ("max_map",):
+                return 1.0
+            if name == "marker_scale":
+                return r.choice([0.1, 0.5])
+            if name == "title" or name == "dest":
+                return "t" if name == "title" else self.path(".pickle")
+            if name == "deserialize":
+                return None
+            if name == "trajectories":
+                k = r.randint(0, 2)
+                return self.traj(True) if k == 0 else [self.traj(True), self.traj(False)] if k == 1 else {"a": self.traj(True), "b": self.traj(True)}
+            if name == "file_path":
+                return self.path(".pdf")
+        if isinstance(default, bool) and default is not inspect.Parameter.empty:
+            return r.random() < 0.5      # non-default options too
         if name == "format_str":
             return "csv"
         if name == "path":
@@ -635,6 +691,13 @@ def receiver_for(cls, fac):
         return fac.traj(False)
     if n == "Result":
         return fac.result()
+    if n == "PlotCollection":
+        import matplotlib.pyplot as plt
+        pc = cls("t")
+        fig = plt.figure()
+        fig.add_subplot(111).plot([0, 1], [0, 1])
+        pc.add_figure("f", fig)
+        return pc
     if n in ("APE", "RPE", "PE", "Metric"):
         # methods defined on the abstract bases are exercised through a concrete metric
         k = cls if n in ("APE", "RPE") else fac.r.choice([metrics.APE, metrics.RPE])
@@ -710,6 +773,17 @@ def frame_case(ctx, qual, cls, fn, variant, tmp):
                                           for _ in range(c.num_poses)]), orientations_quat_wxyz=np.array(c.orientations_quat_wxyz))
         if qual.endswith(".transform"):
             args["t"] = fac.se3()
+        if qual.startswith("evo.tools.plot."):
+            from evo.tools import plot
+            import matplotlib.pyplot as plt
+            if "ax" in args and "plot_mode" in args:
+                args["ax"] = plot.prepare_axis(plt.figure(), args["plot_mode"])
+            if qual.endswith("traj_colormap"):
+                args["array"] = np.linspace(0.0, 1.0, args["traj"].num_poses)
+            if qual.endswith("draw_correspondence_edges"):
+                args["traj_1"], args["traj_2"] = fac.pair()
+            if qual.endswith("colored_line_collection"):
+                args["colors"] = [(0.1, 0.2, 0.3, 1.0)] * (len(args["xyz"]) - 1)
         if qual.endswith("ape_base"):
             args["x_t"], args["x_t_star"] = fac.se3(), fac.se3()
         check_recv = cls is not None and fn.__name__ not in MUTATORS
@@ -732,6 +806,9 @@ def frame_case(ctx, qual, cls, fn, variant, tmp):
                 sys.stdout = stdout
     except Exception as e:  # noqa: BLE001
         status = "raised:" + type(e).__name__
+    if qual.startswith("evo.tools.plot."):
+        import matplotlib.pyplot as plt
+        plt.close("all")
     for hd in fac.open_handles:
         try:
             hd.close()
@@ -759,6 +836,9 @@ def run_frames(ctx):
     variants = 20 if ctx.thorough else 6
     uncovered, covered, raised = {}, 0, {}
     for qual, cls, fn in callables():
+        if qual in EXCLUDED:
+            uncovered[qual] = "excluded: " + EXCLUDED[qual]
+            continue
         ok_any = False
         for v in range(variants):
             case = {"part": "B", "callable": qual, "variant": v}
@@ -844,7 +924,7 @@ def check(ctx):
         open_clauses=[
             "frame condition of the public computing/writing functions (metrics, sync, filters, geometry, merge_results, file writers, "
             "pandas bridge, …): snapshot differential on synthesised arguments, not a theorem; callables whose arguments could not be "
-            "synthesised are listed in notes.uncovered; plotting functions are exercised by C20, not here",
+            "synthesised are listed in notes.uncovered (GUI entry points of PlotCollection, map tiles, ROS map)",
             "the heap model abstracts Python list objects away (no code path mutates a pose list in place); its allocation behaviour "
             "per method is tied to evo by comparing array identity / numpy.shares_memory after every call",
             "objects handed out by reference (traj.positions_xyz returns the internal array; PosePath3D(poses_se3=lst) keeps lst) are "
